@@ -255,23 +255,7 @@ impl Check for C15 {
         cov.insert("not_covered".into(), json!("NEON (cannot execute on x86-64)"));
     }
     fn replay(&self, replay: &Value) -> Result<(bool, String), String> {
-        let point = replay["point"].as_str().unwrap_or("");
-        let mut log = String::new();
-        let mut bad = false;
-        for (i, it) in items(Tier::Thorough).iter().enumerate() {
-            let hit = match it {
-                Item::Impulse { len, f32t, window } => point.starts_with("impulse") && point.contains(&format!("T={} ", if *f32t { "f32" } else { "f64" })) && point.contains(&format!("len={} ", len)) && point.ends_with(&format!("window={}", window_name(*window))),
-                Item::Dispatch { f32t } => point.starts_with("dispatch") && point.contains(&format!("T={} ", if *f32t { "f32" } else { "f64" })),
-            };
-            if hit {
-                let v = self.run_item(Tier::Thorough, i, None)?;
-                for f in v["found"].as_array().cloned().unwrap_or_default() {
-                    bad = true;
-                    log.push_str(&format!("    VIOLATES C15 [{}] {}\n", f["sig"].as_str().unwrap_or(""), f["detail"].as_str().unwrap_or("")));
-                }
-            }
-        }
-        Ok((bad, log))
+        crate::frame::replay_by_item(self, replay)
     }
     fn rule(&self, tier: Tier) -> String {
         format!("full product of: T in {{f32,f64}} x sinc_len in {} x oversampling {{1,2,3,5,(7),128,256,(2048)}} x subindex (all for <=7; 10-25 representatives incl. both ends and powers of two for the large factors) x start index x slice offset x unit impulse at every position index-8..index+len+8, on scalar/SSE/AVX: bit-identical and exactly 0 outside the window; plus six hard waveforms within (len/4+8) eps of the sum of |products|; all six windows at len 64; run-time dispatch vs explicit kernels on 4 resampler configurations. Non-trivial = impulse inside the window", if tier == Tier::Quick { "all 64 multiples of 8 up to 512 (reduced start/offset sets)" } else { "all 64 multiples of 8 up to 512" })
